@@ -268,6 +268,10 @@ def k_tsc(case):
             except ValueError as e:
                 return dict(rejected=str(e)[:80], canary_ok=True)
     tot = float(N if w is None else w.astype(np.float64).sum())
+    # the allocation helper used when the grid is given as an int / shape tuple
+    z = (interp(tsc._zeros_parallel) if MODE == 'S2' else tsc._zeros_parallel)(tuple(int(x) for x in shape))
+    if z.shape != tuple(shape) or z.any():
+        return dict(canary_ok=False, mass=float(z.sum()), expected_mass=0.0, problem='_zeros_parallel')
     return dict(canary_ok=canary_ok(big, sl), mass=float(grid.sum()), expected_mass=tot)
 
 
